@@ -15,6 +15,7 @@ import (
 	"bytes"
 	"fmt"
 	"reflect"
+	"regexp"
 	"sort"
 	"strings"
 	"sync"
@@ -708,7 +709,62 @@ func checkHCLAttrRanges(attrs hcl.Attributes, n int, family string) *core.Violat
 }
 
 // ---------------------------------------------------------------------------------
-// the no-error stage: evaluate and decode; only panics (and hangs) count
+// the no-error stage: evaluate and decode; only panics count
+//
+// The property promises that an error-free input "can be evaluated and decoded without
+// panicking"; it does not (and cannot) promise a running time for evaluation: nested
+// `for` expressions over a 3-element collection cost 3^depth by the semantics of the
+// language, and converting 1e99999999 to a string is a 100 MB string. So that the
+// termination watchdog keeps meaning "the parser hangs", inputs whose evaluation is
+// expensive by design are parsed and range-checked but not evaluated:
+//   - `for` / splat nesting deeper than maxForDepth (SplatExpr.Value evaluates its Each
+//     once for type deduction and once per element, so nested splats cost 2^depth as
+//     well). Native: measured on the AST; JSON, whose templates are only parsed at
+//     evaluation time: more than maxForDepth occurrences of "for" or "*" in the text;
+//   - a number with an exponent of 5 or more digits.
+
+const maxForDepth = 6
+
+var bigExponent = regexp.MustCompile(`[eE][+-]?[0-9]{5,}`)
+
+type forDepthWalker struct{ cur, max int }
+
+func isIterating(n hclsyntax.Node) bool {
+	switch n.(type) {
+	case *hclsyntax.ForExpr, *hclsyntax.SplatExpr:
+		return true
+	}
+	return false
+}
+
+func (w *forDepthWalker) Enter(n hclsyntax.Node) hcl.Diagnostics {
+	if isIterating(n) {
+		w.cur++
+		if w.cur > w.max {
+			w.max = w.cur
+		}
+	}
+	return nil
+}
+
+func (w *forDepthWalker) Exit(n hclsyntax.Node) hcl.Diagnostics {
+	if isIterating(n) {
+		w.cur--
+	}
+	return nil
+}
+
+func evalAffordable(root hclsyntax.Node, src []byte) bool {
+	if bigExponent.Match(src) {
+		return false
+	}
+	if root == nil {
+		return bytes.Count(src, []byte("for"))+bytes.Count(src, []byte("*")) <= maxForDepth
+	}
+	w := &forDepthWalker{}
+	hclsyntax.Walk(root, w)
+	return w.max <= maxForDepth
+}
 
 func evalExpr(e hcl.Expression) {
 	for _, ctx := range evalCtxs {
@@ -800,7 +856,7 @@ func runEntry(entry string, src []byte, o *obs) *core.Violation {
 		if v := checkNodeRanges(body, n, src); v != nil {
 			return v
 		}
-		if !o.hasErr {
+		if !o.hasErr && evalAffordable(body, src) {
 			o.evaluated = true
 			if attrs, d := body.JustAttributes(); !d.HasErrors() {
 				if v := checkHCLAttrRanges(attrs, n, "native"); v != nil {
@@ -843,7 +899,7 @@ func runEntry(entry string, src []byte, o *obs) *core.Violation {
 		if v := checkNodeRanges(expr, n, src); v != nil {
 			return v
 		}
-		if !o.hasErr {
+		if !o.hasErr && evalAffordable(expr, src) {
 			o.evaluated = true
 			evalExpr(expr)
 		}
@@ -918,7 +974,7 @@ func runEntry(entry string, src []byte, o *obs) *core.Violation {
 		if r := file.Body.MissingItemRange(); !o.hasErr && rangeProblem(r, n) != "" {
 			return core.V("range|json-node|"+rangeProblem(r, n)+"|MissingItemRange()", "body MissingItemRange %d..%d (input has %d bytes)", r.Start.Byte, r.End.Byte, n)
 		}
-		if !o.hasErr {
+		if !o.hasErr && evalAffordable(nil, src) {
 			o.evaluated = true
 			spec := hcldec.ObjectSpec{}
 			for _, a := range sortedAttrs(attrs) {
@@ -942,7 +998,7 @@ func runEntry(entry string, src []byte, o *obs) *core.Violation {
 		if v := checkJSONExprRanges(expr, n, 0); v != nil {
 			return v
 		}
-		if !o.hasErr {
+		if !o.hasErr && evalAffordable(nil, src) {
 			o.evaluated = true
 			evalExpr(expr)
 		}
